@@ -53,7 +53,7 @@ ENGINES["plugins"] = dict(
 )
 
 ENGINES["file"] = dict(
-    drv="file", starts=("fsetup",),
+    drv="file", starts=("freset",),
     trivial=r"^(fq4 .* => pass$)|(fq6 .* => pass$)",
     branches=["fsetup4.ok", "fsetup4.rejected", "fsetup6.ok", "fsetup6.rejected", "fwrite.good", "fwrite.bad", "fq4.listed", "fq4.pass",
               "fq6.listed", "fq6.pass", "fq6.no-iana", "fq6.no-mac", "file.comment-line", "file.empty-line", "file.duplicate-mac"],
@@ -279,3 +279,15 @@ RULES = {
     "prefixc": "3..8 concurrent SOLICITs with two hinted IA_PDs each racing for the last blocks",
     "dispatch4c": "dispatch4 datagrams executed 16 at a time through the hook (shared receive-buffer pool)",
 }
+
+# theorems tying definitions regenerated from the Go source (harness gen) to the hand-written models
+GEN_THEOREMS = {
+    "C11": ("CoreDhcp.Props.GenDispatch4", ["GEN_stub4_eq", "GEN_stubType4_eq", "GEN_dispatch4_eq"]),
+    "C15": ("CoreDhcp.Props.GenDispatch4", ["GEN_peer4_eq", "GEN_pinIf4_eq", "GEN_woob4_eq"]),
+    "C12": ("CoreDhcp.Props.GenDispatch6", ["GEN_replyKind6_eq", "GEN_stub6_eq", "GEN_replyKind6_spec", "GEN_replyKind6_table", "GEN_replyKind6_all", "GEN_pinIf6_eq", "GEN_woob6_eq", "GEN_dispatch6_eq"]),
+    "C14": ("CoreDhcp.Props.GenServerID6", ["GEN_sidDecision_spec", "GEN_sidDecision_table", "GEN_sidDecision_all", "GEN_sidDecision_model", "GEN_sidDecision_rel6"]),
+    "C19": ("CoreDhcp.Props.GenNetmask", ["GEN_checkValidNetmask_eq", "GEN_checkValidNetmask_masks"]),
+}
+for _p, (_m, _t) in GEN_THEOREMS.items():
+    PROPS[_p]["theorems"] = PROPS[_p]["theorems"] + _t
+    PROPS[_p]["modules"] = PROPS[_p]["modules"] + [_m]
